@@ -794,4 +794,243 @@ theorem x_feed_rest (hl : H.Lawful) (L : SealLaws Pc) (dcid0 cr csel ch sh ca sa
     simp only [List.map_cons, List.flatMap_cons, expo_append, List.append_assoc]
 
 end XFeed
+section XOut
+open TLX.Quic.UdpOut TLX.Props.C02Out
+
+/-- the datagram as the output builder sees it: time, direction, the frames of its 0-RTT packets and of its 1-RTT packet -/
+def inDgX (d : DgX) : InDgram :=
+  ⟨d.base.ts, d.base.srv, ((d.zrOut ++ d.base.shortOut).map frameOf).map fun f => (f.ftype, f.data)⟩
+
+/-- the packets of the datagram carry its time and direction -/
+def _root_.TLX.Props.C02Capstone3.DgX.Keys (d : DgX) : Prop :=
+  (∀ q ∈ d.zr, q.x.ts = d.base.ts ∧ q.x.srv = d.base.srv) ∧ ∀ o, d.base.short = some o → o.x.ts = d.base.ts ∧ o.x.srv = d.base.srv
+
+theorem expectedOf_pt (pt : PType) (x : SPkt) : (expectedOf pt x).map frameOf = (expectedOf .rtt1 x).map frameOf := by
+  unfold expectedOf
+  simp only [List.map_map]
+  apply List.map_congr_left
+  intro f _
+  simp only [Function.comp, frameOf]
+
+theorem zrOut_frames (d : DgX) : d.zrOut.map frameOf = d.zr.flatMap fun q => (expectedOf .rtt1 q.x).map frameOf := by
+  unfold DgX.zrOut
+  induction d.zr with
+  | nil => rfl
+  | cons q qs ih => simp only [List.flatMap_cons, List.map_append, ih, expectedOf_pt]
+
+theorem shortOut_frames (d : DgM) : d.shortOut.map frameOf = (d.short.map fun o => (expectedOf .rtt1 o.x).map frameOf).getD [] := by
+  unfold DgM.shortOut
+  cases d.short <;> rfl
+
+theorem inDgX_frames (d : DgX) (hk : d.Keys) : (inDgX d).frames = (d.zrOut ++ d.base.shortOut).map frameOf := by
+  unfold inDgX InDgram.frames
+  simp only [List.map_map]
+  have hall : ∀ o ∈ d.zrOut ++ d.base.shortOut, o.ts = d.base.ts ∧ o.isServer = d.base.srv := by
+    intro o ho
+    rcases List.mem_append.mp ho with h | h
+    · simp only [DgX.zrOut, List.mem_flatMap] at h
+      obtain ⟨q, hq, hoq⟩ := h
+      simp only [expectedOf, List.mem_map] at hoq
+      obtain ⟨f, _, rfl⟩ := hoq
+      exact hk.1 q hq
+    · unfold DgM.shortOut at h
+      cases hs : d.base.short with
+      | none => rw [hs] at h; cases h
+      | some o' =>
+        rw [hs] at h
+        simp only [expectedOf, List.mem_map] at h
+        obtain ⟨f, _, rfl⟩ := h
+        exact hk.2 o' hs
+  conv => rhs; rw [← List.map_id' ((d.zrOut ++ d.base.shortOut).map frameOf)]
+  rw [List.map_map]
+  apply List.map_congr_left
+  intro o ho
+  obtain ⟨h1, h2⟩ := frameOf_ts o
+  obtain ⟨h3, h4⟩ := hall o ho
+  simp only [Function.comp, id]
+  generalize frameOf o = fr at h1 h2
+  obtain ⟨a, b, c, dd⟩ := fr
+  simp only at h1 h2
+  rw [← h3, ← h4, h1, h2]
+
+theorem inDgX_data (d : DgX) (hk : d.Keys) : (inDgX d).frames.filterMap (exported false) = d.data := by
+  rw [inDgX_frames d hk, List.map_append, List.filterMap_append, zrOut_frames, shortOut_frames]
+  unfold DgX.data
+  congr 1
+  · induction d.zr with
+    | nil => rfl
+    | cons q qs ih => simp only [List.flatMap_cons, List.filterMap_append, ih, exported_stream_data]
+  · cases d.base.short with
+    | none => rfl
+    | some o => simp only [Option.map_some, Option.getD_some, exported_stream_data]
+
+theorem hasExported_inDgX (d : DgX) (hk : d.Keys) : hasExported false (inDgX d) = !d.data.isEmpty := by
+  unfold hasExported
+  rw [any_isSome_filterMap, inDgX_data d hk]
+
+theorem outDgram_inDgX (d : DgX) (hk : d.Keys) : outDgram false (inDgX d) = ⟨d.base.srv, d.base.ts, d.data.flatten⟩ := by
+  unfold outDgram
+  rw [inDgX_data d hk]
+  rfl
+
+end XOut
+
+section ZeroRttFinal
+variable (maskFn : Dissect.MaskFn) (H : Crypto.Prims) (Pc : Cipher.Prims) (info : Nat → Pipeline.Info)
+open TLX.Quic.UdpOut TLX.Props.C02Out
+
+theorem keys_of_ok (L : SealLaws Pc) (dcid0 : Bytes) (sel selR : SuiteSel) (sh ch sa ca e : Bytes) (t : Trk)
+    (ecs : Option SuiteSel) (d : DgX) (h : XDgOkE maskFn H Pc L dcid0 sel selR sh ch sa ca e t ecs d) : d.Keys := by
+  refine ⟨?_, ?_⟩
+  · intro q hq
+    have hne : d.zr ≠ [] := List.ne_nil_of_mem hq
+    obtain ⟨i, hi⟩ := List.getElem?_of_mem hq
+    obtain ⟨z1, _⟩ := h.zr i q hi
+    exact ⟨h.dirZ q hq, by rw [z1.client, h.client hne]⟩
+  · intro o ho
+    obtain ⟨o1, o2, _⟩ := h.short o ho
+    exact ⟨o2, o1⟩
+
+theorem keys_of_oks (L : SealLaws Pc) (dcid0 : Bytes) (sel selR : SuiteSel) (sh ch sa ca e : Bytes) (t : Trk)
+    (ecs : Option SuiteSel) (ds : List DgX) (h : XDgsE maskFn H Pc L dcid0 sel selR sh ch sa ca e t ecs ds) :
+    ∀ d ∈ ds, d.Keys := by
+  induction ds generalizing t ecs with
+  | nil => intro d hd; cases hd
+  | cons a rest ih =>
+    intro d hd
+    rcases List.mem_cons.mp hd with rfl | hd
+    · exact keys_of_ok maskFn H Pc L dcid0 sel selR sh ch sa ca e t ecs _ h.1
+    · exact ih _ _ h.2 d hd
+
+/-- **C02 with 0-RTT** (`quic_connection_exact_interleaved` with 0-RTT packets anywhere in the mixed part). Every datagram of
+    the mixed part is a `DgX`: long-header packets, 0-RTT packets of the client after the first `pos` of them, more
+    long-header packets, optionally the closing 1-RTT packet. THE condition on a 0-RTT packet (`XDgOkE.suite`): when it is
+    reached, the suite `set_tls_decryptors` was LAST CALLED with (`ecsFold`: after the ClientHello the first offered suite —
+    if the tool knows it —, after the ServerHello / EncryptedExtensions the selected one) is the suite `selR` the client
+    protects 0-RTT with; the key log has CLIENT_EARLY_TRAFFIC_SECRET (`KeylogHas … (some e)`). Then nothing raises and the
+    export without `-a` is exactly one UDP frame per datagram that carried STREAM data in a 0-RTT or 1-RTT packet — payload:
+    the 0-RTT packets' data, then the 1-RTT packet's —, in capture order, then the 1-RTT-only part (`expectedOutX`).
+    NOT covered (and lost by the tool: `ExZr.…_counterexample`, open finding `early-data-lost`): 0-RTT packets before the
+    ClientHello is complete, or while the last call used another suite than the client's. -/
+theorem quic_connection_exact_0rtt (hl : H.Lawful) (h32 : H.sha256.outLen = 32) (L : SealLaws Pc)
+    (cr csel ch sh ca sa e : Bytes) (sel selR : SuiteSel) (csR : Bytes) (hsel : selectSuite csel = some sel)
+    (hselR : selectSuite csR = some selR)
+    (ho : (hashOf H sel.hash).outLen < 65536)
+    (hsa : sa.length = (hashOf H sel.hash).outLen) (hca : ca.length = (hashOf H sel.hash).outLen)
+    (kl0 : List Keylog.Key) (p0 : MainLoop.Pkt) (d0 : DgX) (itemsA : List (List Keylog.Key × MainLoop.Pkt × DgX))
+    (hkl : ∀ x ∈ (kl0, p0, d0) :: itemsA, KeylogHas x.1 cr ch sh ca sa (some e))
+    (c : QConn) (hc : Fresh H Pc c) (hd0 : d0.ver = .v1)
+    (hok : XDgsE maskFn H Pc L d0.dcid sel selR sh ch sa ca e trk0 none (d0 :: itemsA.map (·.2.2)))
+    (htr : PTrace cr csel {} (allInsM ((d0 :: itemsA.map (·.2.2)).map (·.base))))
+    (hcar : ∀ x ∈ (kl0, p0, d0) :: itemsA, CarriesX info c (DgX.wire H Pc L d0.dcid sel selR sh ch sa ca e) x.2.1 x.2.2)
+    (hkeyed : ((d0 :: itemsA.map (·.2.2)).foldl Trk.dgx trk0).keyed = true)
+    (itemsB : List (List Keylog.Key × MainLoop.Pkt × Dg1))
+    (hcarB : ∀ x ∈ itemsB, Carries info c
+      (wireOf H Pc L sel .v1 (rfcGen (hashOf H sel.hash) sel.keyLen sa ca 0)) x.2.1 x.2.2)
+    (hsend : Send1 maskFn H Pc L sel .v1 (rfcGen (hashOf H sel.hash) sel.keyLen sa ca 0)
+      (quicHp (hashOf H sel.hash) ca sel.keyLen) (quicHp (hashOf H sel.hash) sa sel.keyLen)
+      (chachaOf ((d0 :: itemsA.map (·.2.2)).foldl Trk.dgx trk0).core) 0 0
+      ((d0 :: itemsA.map (·.2.2)).foldl Trk.dgx trk0).tc.app ((d0 :: itemsA.map (·.2.2)).foldl Trk.dgx trk0).ts.app
+      ((d0 :: itemsA.map (·.2.2)).foldl Trk.dgx trk0).cc ((d0 :: itemsA.map (·.2.2)).foldl Trk.dgx trk0).sc
+      (itemsB.map (·.2.2)))
+    (hadj : DistinctAdjacent false ((d0 :: itemsA.map (·.2.2)).map inDgX ++ (itemsB.map (·.2.2)).map fun d => inDg d.x)) :
+    let QM := quicMachine maskFn H Pc info
+    let c1 := xFeedAll QM c ((kl0, p0, d0) :: itemsA)
+    (feedAll QM c1 itemsB).raised = none ∧
+    QM.out false (feedAll QM c1 itemsB) = expectedOutX c (d0 :: itemsA.map (·.2.2)) (itemsB.map (·.2.2)) := by
+  intro QM c1
+  obtain ⟨hfresh, hr⟩ := hc
+  have hkeys := keys_of_oks maskFn H Pc L d0.dcid sel selR sh ch sa ca e trk0 none _ hok
+  obtain ⟨hm0, hms⟩ := hok
+  have hv0 : sver d0.ver = .v1 := by rw [hd0]; rfl
+  have hno : noOut c.st = c.st := by rw [hfresh]; rfl
+  have hpre : HsSt H d0.dcid sel ch sh ca sa trk0.keyed (feedPre H (params H Pc kl0) (noOut c.st) d0.dcid (sver d0.ver))
+      trk0.tc trk0.ts trk0.cc trk0.sc trk0.core := by
+    rw [hno, hfresh, hv0]; exact feedPre_fresh H Pc kl0 h32 d0.dcid sel ch sh ca sa
+  have hinv0 : EInv H e none (feedPre H (params H Pc kl0) (noOut c.st) d0.dcid (sver d0.ver)) := by
+    intro selX hx; cases hx
+  have htr' : PTrace cr csel trk0.core (insOf d0.base.longs ++ allInsM ((itemsA.map (·.2.2)).map (·.base))) := by
+    simpa [allInsM, List.flatMap_cons, trk0] using htr
+  obtain ⟨b1, b2, b3, b4, b5, b6, b7, b8, b9, b10, b11⟩ := x_feed_step maskFn H Pc info hl kl0 L d0.dcid cr csel ch sh ca sa e
+    sel selR csR hsel hselR (hkl (kl0, p0, d0) (List.mem_cons_self ..)) ho hsa hca trk0 none d0 hm0 _ c hr hpre hinv0 htr' p0
+    (hcar (kl0, p0, d0) (List.mem_cons_self ..))
+  obtain ⟨i1, i2, i3, i4, i5, i6, i7, i8, i9⟩ := x_feed_rest maskFn H Pc info hl L d0.dcid cr csel ch sh ca sa e sel selR csR hsel
+    hselR ho hsa hca itemsA (fun x hx => hkl x (List.mem_cons_of_mem _ hx)) (trk0.dgx d0) _ _ b1 b2 b4 hms b3
+    (fun x hx => by
+      obtain ⟨u1, u2, u3⟩ := hcar x (List.mem_cons_of_mem _ hx)
+      exact ⟨u1, u2, by rw [b8]; exact u3⟩)
+  have hc1 : c1 = xFeedAll QM (QM.feed c kl0 p0 d0.dcid d0.ver) itemsA := rfl
+  have ht1 : (d0 :: itemsA.map (·.2.2)).foldl Trk.dgx trk0 = (itemsA.map (·.2.2)).foldl Trk.dgx (trk0.dgx d0) := rfl
+  rw [ht1] at hkeyed hsend
+  rw [← hc1] at i1 i2 i3 i4 i5 i6 i7 i8 i9
+  rw [hkeyed] at i2
+  have hest := est_of_noOut H Pc [] _ _ _ _ _ _ _ _ _ _ _ _ _
+    (est_of_hsSt H Pc [] _ sel ch sh ca sa _ _ _ _ _ _ i2)
+  have hk := keysWf_rfc H hl Pc [] csel sel hsel .v1 ho sa ca hsa hca
+  have e3 : c1.opts = c.opts := i4.trans b6
+  have e4 : c1.server = c.server := i5.trans b7
+  have e5 : c1.client = c.client := i6.trans b8
+  have e6 : c1.serverMac = c.serverMac := i7.trans b9
+  have e7 : c1.clientMac = c.clientMac := i8.trans b10
+  have e8 : c1.ipv6 = c.ipv6 := i9.trans b11
+  obtain ⟨f1, f2, f3, f4, f5, f6, f7, f8, _⟩ := feedAll_exact maskFn H Pc info [] L sel .v1 _ _ _ _ hk itemsB c1
+    0 0 _ _ _ _ i1 hest
+    (fun x hx => by
+      obtain ⟨u1, u2, u3⟩ := hcarB x hx
+      exact ⟨u1, u2, by rw [e5]; exact u3⟩) hsend
+  refine ⟨f1, ?_⟩
+  have hexpo : expo (feedAll QM c1 itemsB).st.out =
+      expo (((d0 :: itemsA.map (·.2.2)).flatMap fun d => d.zrOut ++ d.base.shortOut) ++
+        (itemsB.map (·.2.2)).flatMap fun d => expectedOf .rtt1 d.x) := by
+    rw [f2, expo_append, i3, b5]
+    have hc0 : expo c.st.out = [] := by rw [hfresh]; rfl
+    rw [hc0, List.nil_append, expo_append]
+    congr 1
+    simp only [List.flatMap_cons, expo_append]
+  show connOut false (feedAll QM c1 itemsB) = _
+  rw [connOut_eq, addressed_congr c _ (f3.trans e3) (f4.trans e4) (f5.trans e5) (f6.trans e6) (f7.trans e7) (f8.trans e8),
+    build_congr _ _ hexpo]
+  have hframesA : ∀ ds : List DgX, (∀ d ∈ ds, d.Keys) →
+      (ds.flatMap fun d => d.zrOut ++ d.base.shortOut).map frameOf = framesOf (ds.map inDgX) := by
+    intro ds
+    induction ds with
+    | nil => intro _; rfl
+    | cons d ds ih =>
+      intro hk
+      simp only [List.flatMap_cons, List.map_append, List.map_cons, framesOf] at ih ⊢
+      rw [← ih (fun x hx => hk x (List.mem_cons_of_mem _ hx)), inDgX_frames d (hk d (List.mem_cons_self ..)), List.map_append]
+  have hframesB : ∀ ds : List Dg1, (ds.flatMap fun d => expectedOf .rtt1 d.x).map frameOf =
+      framesOf (ds.map fun d => inDg d.x) := by
+    intro ds
+    induction ds with
+    | nil => rfl
+    | cons d ds ih =>
+      simp only [List.flatMap_cons, List.map_append, List.map_cons, framesOf] at ih ⊢
+      rw [ih, inDg_frames]
+  have hfr : (((d0 :: itemsA.map (·.2.2)).flatMap fun d => d.zrOut ++ d.base.shortOut) ++
+        (itemsB.map (·.2.2)).flatMap fun d => expectedOf .rtt1 d.x).map frameOf =
+      framesOf ((d0 :: itemsA.map (·.2.2)).map inDgX ++ (itemsB.map (·.2.2)).map fun d => inDg d.x) := by
+    rw [List.map_append, hframesA _ hkeys, hframesB]
+    simp only [framesOf, List.flatMap_append]
+  rw [hfr, build_groups false _ hadj, List.filter_append, List.map_append, List.map_append]
+  unfold expectedOutX
+  congr 1
+  · -- the mixed part
+    have : ∀ ds : List DgX, (∀ d ∈ ds, d.Keys) →
+        (((ds.map inDgX).filter (hasExported false)).map (outDgram false)).map (addressed c) =
+          (ds.filter fun d => !d.data.isEmpty).map fun d => addressed c ⟨d.base.srv, d.base.ts, d.data.flatten⟩ := by
+      intro ds
+      induction ds with
+      | nil => intro _; rfl
+      | cons d ds ih =>
+        intro hk
+        have hd := hk d (List.mem_cons_self ..)
+        simp only [List.map_cons, List.filter_cons, hasExported_inDgX d hd]
+        split
+        · simp only [List.map_cons, outDgram_inDgX d hd, ih (fun x hx => hk x (List.mem_cons_of_mem _ hx))]
+        · exact ih (fun x hx => hk x (List.mem_cons_of_mem _ hx))
+    exact this _ hkeys
+  · exact out_tail c _
+
+end ZeroRttFinal
 end TLX.Props.C02Capstone4
